@@ -648,7 +648,7 @@ package vanguard
 //@   step h.read >= old(h.read) && h.limit == old(h.limit) && h.r == old(h.r) && h.rw == old(h.rw) && (h.rw != nil ==> rwStep(h.rw))
 //@   ensures[C10,C08] 0 <= n && n <= len(data) && h.read == old(h.read) + n
 //@   ensures[C09,C10] h.read > h.limit ==> err != nil && !errIs(err, io.EOF)
-//@   modifies h.read, #RWEND
+//@   modifies h.read, $io.LimitedReader.N, #RWEND
 
 //@ pred readerOK(r) = r != nil && extern(r) && !typeIs(r, *bytes.Buffer) && (typeIs(r, *io.LimitedReader) ==> unbox(r, *io.LimitedReader) != nil)
 
@@ -667,7 +667,7 @@ package vanguard
 //@   ensures rw != nil && msg.buf != nil && (old(msg.buf) != nil ==> old(msg.buf) != old(rw.buf)) ==> msg.buf != rw.buf
 //@   ensures[C14] ownMsg(msg)
 //@   ensures rw != nil ==> rwInv(rw) && rwStep(rw)
-//@   modifies msg.stage, msg.size, msg.isRequest, msg.wasCompressed, msg.buf, owned(msg.buf), blen(msg.buf), owned(rw.buf), blen(rw.buf), #RWEND
+//@   modifies msg.stage, msg.size, msg.isRequest, msg.wasCompressed, msg.buf, owned(msg.buf), blen(msg.buf), owned(rw.buf), blen(rw.buf), $io.LimitedReader.N, #RWEND
 
 //@ pred curOK(c, rw) = c == nil || (extern(c) && (typeIs(c, *bytes.Buffer) ==> unbox(c, *bytes.Buffer) != nil) && (typeIs(c, *io.LimitedReader) ==> unbox(c, *io.LimitedReader) != nil)) || (typeIs(c, *hardLimitReader) && hlrInv(unbox(c, *hardLimitReader)) && unbox(c, *hardLimitReader).rw == rw)
 //@ pred validER(r) = r != nil && rwInv(r.rw) && prepOK(r.rw.op) && readerOK(r.r) && 0 <= r.envRemain && r.envRemain <= 5 && curOK(r.current, r.rw)
